@@ -1,7 +1,9 @@
 (** C13 — Genesis export/import round trip preserves all module state.
     Only statements here; proofs are in Proofs/Genesis*.v. *)
-From Teleport Require Import Base.Bytes Base.Outcome Base.AList Base.Fmt Gen.KeysGen Model.Keys Model.Genesis Model.GenesisCheck.
-From Teleport Require Import Proofs.GenesisStore Proofs.GenesisKeys Proofs.GenesisXibc Proofs.GenesisAgg Proofs.Genesis Proofs.GenesisExample.
+From Coq Require Import String.
+From Teleport Require Import Base.Bytes Base.Outcome Base.AList Base.Fmt Gen.KeysGen Gen.GenesisSchemaGen Model.Keys Model.Genesis Model.GenesisCheck Model.GenesisOps
+  Model.GenesisSchema.
+From Teleport Require Import Proofs.GenesisStore Proofs.GenesisKeys Proofs.GenesisXibc Proofs.GenesisAgg Proofs.GenesisValid Proofs.Genesis Proofs.GenesisOps Proofs.GenesisAggOps Proofs.GenesisSchema Proofs.GenesisMonitor Proofs.GenesisExample.
 From Teleport Require Model.Rvesting.
 Local Open Scope N_scope.
 
@@ -22,6 +24,48 @@ Theorem C13_export_import_id :
               import CS CONS cs_marshal cons_marshal rel_marshal tp_marshal sha256 hex_to_address g = Ok st.
 Proof. exact export_import_id. Qed.
 Print Assumptions C13_export_import_id.
+
+(** The export passes the modules' own genesis validation: for EVERY well-formed state, the genesis ExportGenesis returns
+    is accepted by the three [GenesisState.Validate] functions EXACTLY when [valid_state] holds of the state — entry by entry:
+    client states validate under valid chain names, every consensus state validates, has the type of its client and a
+    non-zero height (zero allowed for ETH / BSC), metadata values are non-empty, relayers pass IdentifiedRelayer.Validate,
+    packet entries have valid chain names, non-zero sequences and data, the native chain name is valid, the token pairs pass
+    the aggregate validation, the reward parameters the rvesting validation.  "Exactly": the condition is sufficient (the
+    clause of the property) AND necessary (Refuted/C13_refuted.v has a concrete witness for every conjunct), so no state
+    outside [valid_state] exports a genesis that validates. *)
+Theorem C13_export_validates_iff :
+  forall (CS CONS : Type) (cs_unmarshal : bytes -> option CS) (cs_marshal : CS -> bytes) (cs_type : CS -> ctype)
+         (cons_unmarshal : bytes -> option CONS) (cons_marshal : CONS -> bytes)
+         (rel_unmarshal : bytes -> option relayer) (rel_marshal : relayer -> bytes)
+         (tp_unmarshal : bytes -> option token_pair) (tp_marshal : token_pair -> bytes)
+         (sha256 hex_to_address : bytes -> bytes)
+         (cs_valid : CS -> bool) (cons_type : CONS -> ctype) (cons_valid : CONS -> bool) (acc_addr_ok : bytes -> bool)
+         (st : mstate) (g : genesis CS CONS),
+    wf_state CS CONS cs_unmarshal cs_marshal cs_type cons_unmarshal cons_marshal rel_unmarshal rel_marshal
+             tp_unmarshal tp_marshal sha256 hex_to_address st = true ->
+    export CS CONS cs_unmarshal cs_type cons_unmarshal rel_unmarshal tp_unmarshal st = Ok g ->
+    validate CS CONS cs_type cs_valid cons_type cons_valid acc_addr_ok hex_to_address g
+    = valid_state CS CONS cs_unmarshal cs_type cs_valid cons_unmarshal cons_type cons_valid rel_unmarshal acc_addr_ok
+                  tp_unmarshal hex_to_address st.
+Proof. exact export_validates_iff. Qed.
+Print Assumptions C13_export_validates_iff.
+
+Theorem C13_export_validates :
+  forall (CS CONS : Type) (cs_unmarshal : bytes -> option CS) (cs_marshal : CS -> bytes) (cs_type : CS -> ctype)
+         (cons_unmarshal : bytes -> option CONS) (cons_marshal : CONS -> bytes)
+         (rel_unmarshal : bytes -> option relayer) (rel_marshal : relayer -> bytes)
+         (tp_unmarshal : bytes -> option token_pair) (tp_marshal : token_pair -> bytes)
+         (sha256 hex_to_address : bytes -> bytes)
+         (cs_valid : CS -> bool) (cons_type : CONS -> ctype) (cons_valid : CONS -> bool) (acc_addr_ok : bytes -> bool)
+         (st : mstate),
+    wf_state CS CONS cs_unmarshal cs_marshal cs_type cons_unmarshal cons_marshal rel_unmarshal rel_marshal
+             tp_unmarshal tp_marshal sha256 hex_to_address st = true ->
+    valid_state CS CONS cs_unmarshal cs_type cs_valid cons_unmarshal cons_type cons_valid rel_unmarshal acc_addr_ok
+                tp_unmarshal hex_to_address st = true ->
+    exists g, export CS CONS cs_unmarshal cs_type cons_unmarshal rel_unmarshal tp_unmarshal st = Ok g /\
+              validate CS CONS cs_type cs_valid cons_type cons_valid acc_addr_ok hex_to_address g = true.
+Proof. exact export_validates. Qed.
+Print Assumptions C13_export_validates.
 
 (** Exporting the re-imported state yields the same genesis again. *)
 Theorem C13_export_idempotent :
@@ -118,19 +162,164 @@ Proof.
 Qed.
 Print Assumptions C13_written_values_canonical.
 
+(** The hypotheses [wf_xibc] and [valid_xibc] of the theorems above are not assumptions about an arbitrary store: they
+    are INVARIANTS of everything the module writes.  [step] (Model/GenesisOps.v) is one store.Set / store.Delete of
+    the client keeper, a light client, the packet keeper or ResetStates under the guard its callers establish; any
+    such write takes a store inside the domain to a store inside the domain ... *)
+Theorem C13_writes_preserve_domain :
+  forall (CS CONS : Type) (cs_unmarshal : bytes -> option CS) (cs_marshal : CS -> bytes) (cs_type : CS -> ctype) (cs_valid : CS -> bool)
+         (cons_unmarshal : bytes -> option CONS) (cons_marshal : CONS -> bytes) (cons_type : CONS -> ctype) (cons_valid : CONS -> bool)
+         (rel_unmarshal : bytes -> option relayer) (rel_marshal : relayer -> bytes) (acc_addr_ok : bytes -> bool) (s s' : store),
+    wf_xibc CS CONS cs_unmarshal cs_marshal cs_type cons_unmarshal cons_marshal rel_unmarshal rel_marshal s = true ->
+    valid_xibc CS CONS cs_unmarshal cs_type cs_valid cons_unmarshal cons_type cons_valid rel_unmarshal acc_addr_ok s = true ->
+    step CS CONS cs_unmarshal cs_marshal cs_type cs_valid cons_unmarshal cons_marshal cons_type cons_valid rel_unmarshal rel_marshal
+         acc_addr_ok s s' ->
+    wf_xibc CS CONS cs_unmarshal cs_marshal cs_type cons_unmarshal cons_marshal rel_unmarshal rel_marshal s' = true /\
+    valid_xibc CS CONS cs_unmarshal cs_type cs_valid cons_unmarshal cons_type cons_valid rel_unmarshal acc_addr_ok s' = true.
+Proof.
+  intros until s'. intros W V St. apply inv_iff. eapply step_inv; [|exact St]. apply inv_iff. split; assumption.
+Qed.
+Print Assumptions C13_writes_preserve_domain.
+
+(** ... so EVERY store reachable from an initialised chain (all histories of guarded writes: any mix of client types,
+    any heights and revision numbers, creation, update, pruning, upgrade, toggle, relayers, packet traffic, resets)
+    is exported without panic to a genesis that passes validation and whose import is exactly that store. *)
+Theorem C13_reachable_round_trip :
+  forall (CS CONS : Type) (cs_unmarshal : bytes -> option CS) (cs_marshal : CS -> bytes) (cs_type : CS -> ctype) (cs_valid : CS -> bool)
+         (cons_unmarshal : bytes -> option CONS) (cons_marshal : CONS -> bytes) (cons_type : CONS -> ctype) (cons_valid : CONS -> bool)
+         (rel_unmarshal : bytes -> option relayer) (rel_marshal : relayer -> bytes) (acc_addr_ok : bytes -> bool) (s : store),
+    reach CS CONS cs_unmarshal cs_marshal cs_type cs_valid cons_unmarshal cons_marshal cons_type cons_valid rel_unmarshal rel_marshal
+          acc_addr_ok s ->
+    wf_xibc CS CONS cs_unmarshal cs_marshal cs_type cons_unmarshal cons_marshal rel_unmarshal rel_marshal s = true /\
+    valid_xibc CS CONS cs_unmarshal cs_type cs_valid cons_unmarshal cons_type cons_valid rel_unmarshal acc_addr_ok s = true /\
+    exists g, export_xibc CS CONS cs_unmarshal cs_type cons_unmarshal rel_unmarshal s = Ok g /\
+              import_xibc CS CONS cs_marshal cons_marshal rel_marshal g = Ok s /\
+              validate_xibc CS CONS cs_type cs_valid cons_type cons_valid acc_addr_ok g = true.
+Proof. exact reach_round_trip. Qed.
+Print Assumptions C13_reachable_round_trip.
+
+(** The same for the aggregate store: [wf_agg] is an invariant of the writes of the aggregate keeper ([agg_step]: register
+    a pair whose id / contract / denominations are new, DeleteTokenPair of a registered pair, rewriting a pair with the
+    same contract and denominations (ToggleTokenRelay), AddCoin of a new denomination) ... *)
+Theorem C13_agg_writes_preserve_domain :
+  forall (tp_unmarshal : bytes -> option token_pair) (tp_marshal : token_pair -> bytes) (sha256 hex_to_address : bytes -> bytes) (s s' : store),
+    wf_agg tp_unmarshal tp_marshal sha256 hex_to_address s = true ->
+    agg_step tp_unmarshal tp_marshal sha256 hex_to_address s s' ->
+    wf_agg tp_unmarshal tp_marshal sha256 hex_to_address s' = true.
+Proof. exact agg_step_wf. Qed.
+Print Assumptions C13_agg_writes_preserve_domain.
+
+(** ... so every aggregate store reachable from the empty store (any registry content: any number of pairs, any number
+    of denominations per pair, disabled pairs, replaced contracts = delete + register) round-trips through its export. *)
+Theorem C13_agg_reachable_round_trip :
+  forall (tp_unmarshal : bytes -> option token_pair) (tp_marshal : token_pair -> bytes) (sha256 hex_to_address : bytes -> bytes) (s : store),
+    agg_reach tp_unmarshal tp_marshal sha256 hex_to_address s ->
+    exists ps, export_agg tp_unmarshal s = Ok ps /\ import_agg tp_marshal sha256 hex_to_address ps = Ok s.
+Proof. exact agg_reach_round_trip. Qed.
+Print Assumptions C13_agg_reachable_round_trip.
+
+(** The shape of the genesis code, REGENERATED from the Go source on every run (Gen/GenesisSchemaGen.v), agrees with the
+    model: the five GenesisState structs have exactly the fields the model's records transcribe (plus the two import-only
+    fields of rvesting), every ExportGenesis fills exactly the state fields from the state, every InitGenesis reads and
+    every validation looks at every field. *)
+Theorem C13_genesis_schema_ok : schema_ok = true.
+Proof. exact schema_ok_true. Qed.
+Print Assumptions C13_genesis_schema_ok.
+
+(** ... each ClientState.ExportMetadata iterates exactly what [export_metadata] of the model transcribes, and every key
+    family a light client writes into its client store (every Set on a sdk.KVStore parameter in the tendermint, bsc and
+    eth packages) is a consensus state key, the Tendermint processed-time key or a key format under an exported prefix. *)
+Theorem C13_light_client_families_ok : lc_ok = true.
+Proof. exact lc_ok_true. Qed.
+Print Assumptions C13_light_client_families_ok.
+
+(** Consequently every key of every metadata family a light client writes — for ALL arguments (heights, revision
+    numbers, hashes, block numbers) — is a metadata path of its client type: exported by ExportMetadata and accepted by
+    [wf_xibc] (the repaired defect D8 as a regenerated obligation). *)
+Theorem C13_written_families_exported : forall (name : string) (t : ctype) (heads : list string) (head : string) (f : fmt),
+  In (name, t) lc_types -> slookup name lc_store_writes = Some heads -> In head heads ->
+  write_family name head = Some (FMeta f) -> forall a, metadata_path t (render f a) = true.
+Proof. exact written_families_exported. Qed.
+Print Assumptions C13_written_families_exported.
+
+(** Monitor soundness: the executable monitor of the correspondence check ([mon_case], evaluated on the observations of the
+    REAL code) accepts the observations the model produces for every state inside the domain of the theorems (oracles =
+    the decoding tables of a case): if the code behaves like the model on a well-formed, valid state no monitor code fires. *)
+Theorem C13_monitor_accepts_model : forall (T : tables) (st : mstate),
+  m_wf_state T st = true -> m_valid_state T st = true -> exists c, model_case T st = Some c /\ mon_case c = [].
+Proof. exact monitor_accepts_model. Qed.
+Print Assumptions C13_monitor_accepts_model.
+
+(** Non-vacuity of [reach]: twelve guarded writes (create a Tendermint client, consensus state at height 47-303 with its
+    metadata, relayer, packet traffic, commitment deletion, toggle to TSS) build the 9-entry store [r10] and, after the toggle, the 6-entry store [r12]. *)
+Example C13_reach_nonvacuous : m_reach T0 r12 /\ length r12 = 6%nat /\ length r10 = 9%nat.
+Proof.
+  split; [|split; reflexivity].
+  assert (R0 : m_reach T0 r0) by (apply ReachInit; reflexivity).
+  assert (R1 : m_reach T0 r1).
+  { apply (ReachStep _ _ _ _ _ _ _ _ _ _ _ _ _ r0 r1 R0). change r1 with (set_client_state bytes (fun v => v) (B "abc") csT r0).
+    apply StSetClientState; try reflexivity. left. reflexivity. }
+  assert (R2 : m_reach T0 r2).
+  { apply (ReachStep _ _ _ _ _ _ _ _ _ _ _ _ _ r1 r2 R1). change r2 with (set_consensus_state bytes (fun v => v) (B "abc") (hh 47 303) (consT 1) r1).
+    apply (StSetConsensusState _ _ _ _ _ _ _ _ _ _ _ _ _ r1 (B "abc") (hh 47 303) (consT 1) TM); reflexivity. }
+  assert (R3 : m_reach T0 r3).
+  { apply (ReachStep _ _ _ _ _ _ _ _ _ _ _ _ _ r2 r3 R2).
+    change r3 with (client_store_set (B "abc") (tm_processed_time_key (hh 47 303)) (be_bytes 8 1000) r2).
+    apply (StClientStoreSet _ _ _ _ _ _ _ _ _ _ _ _ _ r2 (B "abc") _ _ TM); try reflexivity. discriminate. }
+  assert (R4 : m_reach T0 r4).
+  { apply (ReachStep _ _ _ _ _ _ _ _ _ _ _ _ _ r3 r4 R3).
+    change r4 with (client_store_set (B "abc") (tm_iteration_key (hh 47 303)) (consensus_state_key (hh 47 303)) r3).
+    apply (StClientStoreSet _ _ _ _ _ _ _ _ _ _ _ _ _ r3 (B "abc") _ _ TM); try reflexivity. discriminate. }
+  assert (R5 : m_reach T0 r5).
+  { apply (ReachStep _ _ _ _ _ _ _ _ _ _ _ _ _ r4 r5 R4). change r5 with (register_relayer (o_rel_marshal T0) rel1 r4).
+    apply StRegisterRelayer; try reflexivity. discriminate. }
+  assert (R6 : m_reach T0 r6).
+  { apply (ReachStep _ _ _ _ _ _ _ _ _ _ _ _ _ r5 r6 R5). change r6 with (set_packet_ack tr1 (B "ackhash") r5).
+    apply StSetPacketAck; try reflexivity. discriminate. }
+  assert (R7 : m_reach T0 r7).
+  { apply (ReachStep _ _ _ _ _ _ _ _ _ _ _ _ _ r6 r7 R6). change r7 with (set_packet_commitment tr2 (B "commitment") r6).
+    apply StSetPacketCommitment; try reflexivity. discriminate. }
+  assert (R8 : m_reach T0 r8).
+  { apply (ReachStep _ _ _ _ _ _ _ _ _ _ _ _ _ r7 r8 R7). change r8 with (set_next_sequence_send (B "teleport") (B "abc") 304 r7).
+    apply StSetNextSequenceSend; reflexivity. }
+  assert (R9 : m_reach T0 r9).
+  { apply (ReachStep _ _ _ _ _ _ _ _ _ _ _ _ _ r8 r9 R8). change r9 with (delete_packet_commitment tr2 r8).
+    apply StDeletePacketCommitment; reflexivity. }
+  assert (R10 : m_reach T0 r10).
+  { apply (ReachStep _ _ _ _ _ _ _ _ _ _ _ _ _ r9 r10 R9). change r10 with (set_packet_receipt tr1 r9).
+    apply StSetPacketReceipt; reflexivity. }
+  assert (R11 : m_reach T0 r11).
+  { apply (ReachStep _ _ _ _ _ _ _ _ _ _ _ _ _ r10 r11 R10). change r11 with (clear_client_store (B "abc") r10).
+    apply StClearClientStore; reflexivity. }
+  apply (ReachStep _ _ _ _ _ _ _ _ _ _ _ _ _ r11 r12 R11). change r12 with (set_client_state bytes (fun v => v) (B "abc") (B "tss-client-state") r11).
+  apply StSetClientState; try reflexivity. left. reflexivity.
+Qed.
+
 (** Non-vacuity: a concrete state with consensus heights 0-47, 0-303 and revision 47, three client types whose
     names are prefixes of one another, an ETH client at block 0, relayer, packets, a disabled two-denomination
     pair: it is well-formed, its export validates, and the round trip is the identity. *)
-Example C13_nonvacuous :
-  m_wf_xibc T0 s0 = true /\ m_wf_agg T0 a0 = true /\ length s0 = 20%nat /\
+(** Non-vacuity of [agg_reach]: the 4-entry aggregate store [a0] (a two-denomination pair) is one registration away from
+    the empty store. *)
+Example C13_agg_reach_nonvacuous :
+  agg_reach (o_tp_unmarshal T0) (o_tp_marshal T0) (o_sha T0) (o_addr T0) a0 /\ length a0 = 4%nat.
+Proof.
+  split; [|reflexivity]. apply (AggReachStep _ _ _ _ [] a0); [apply AggReachInit|].
+  change a0 with (agg_register (o_tp_marshal T0) (o_sha T0) (o_addr T0)
+                    {| tp_erc20 := B "0x00000000000000000000000000000000000000a2"; tp_denoms := [B "coin"; B "ibc/XYZ"]; tp_enabled := false; tp_owner := 1 |} []).
+  apply AggRegister; [discriminate | reflexivity | intros kv _; reflexivity].
+Qed.
+
+Definition C13_nonvacuous_check : bool :=
+  m_wf_xibc T0 s0 && m_wf_agg T0 a0 && Nat.eqb (length s0) 20 && m_valid_xibc T0 s0 &&
   match m_export T0 st0 with
-  | Ok g => m_validate_xibc T0 g = true /\ m_validate_agg T0 g = true /\ m_validate_rv g = true /\
-            length (g_consensus _ _ (g_client _ _ g)) = 2%nat /\
+  | Ok g => m_validate_xibc T0 g && m_validate_agg T0 g && m_validate_rv g &&
+            Nat.eqb (length (g_consensus _ _ (g_client _ _ g))) 2 &&
             match m_import T0 g with
-            | Ok st => store_eqb (st_xibc st) s0 = true /\ store_eqb (st_agg st) a0 = true /\
-                       (exists g2, m_export T0 st = Ok g2 /\ genesis_eqb g g2 = true)
-            | _ => False
+            | Ok st => store_eqb (st_xibc st) s0 && store_eqb (st_agg st) a0 &&
+                       match m_export T0 st with Ok g2 => genesis_eqb g g2 | _ => false end
+            | _ => false
             end
-  | _ => False
+  | _ => false
   end.
-Proof. vm_compute. repeat split; try reflexivity. eexists. split; reflexivity. Qed.
+Example C13_nonvacuous : C13_nonvacuous_check = true.
+Proof. vm_compute. reflexivity. Qed.
